@@ -6,9 +6,14 @@ ops:  ['start', i]      the real _run.run() for container i (resource requests,
                         image, presence, exec) - as `treadmill sproc run`
       ['fstart', i, k]  the same with the k-th boundary call of the start
       ['fstart', i, L, n]   (or the n-th boundary call labelled L) failing;
-                        run() then fails or copes as the code decides; a failed
-                        run flags the container aborted, like sproc run, and
-                        the container is finished later like any other
+      [..., 'native']   run() then fails or copes as the code decides; a failed
+                        run flags the container aborted, like sproc run (reason
+                        = what LinuxRuntime._run / sproc run derive from the
+                        exception type), and the container is finished later
+                        like any other.  With a trailing 'native' the call
+                        fails with the exception type the real call raises
+                        (a resource service wait(): ResourceServiceTimeoutError
+                        -> aborted with reason 'timeout') instead of EIO.
       ['finish', i]     the real _finish.finish() for container i (first or
                         repeated), as the cleanup service runs it through
                         RuntimeBase.finish: when finish() returns, the
@@ -83,10 +88,12 @@ ASSUMPTIONS = [
     'code carries a FIXME for the other case; not part of the statement)',
     'a container has exited (its sockets are closed) before it is finished; '
     'containers are started and finished one at a time on a node',
-    'a failed run() is followed by what sproc run does (aborted flag, process '
+    'a failed run() is followed by what sproc run does (aborted flag with the '
+    'reason LinuxRuntime._run / sproc run derive from the exception, process '
     'exit) and later by finish; an injected fault makes one boundary call '
-    'raise OSError(EIO) before it has any effect; a run killed and restarted '
-    'by the supervisor is not modelled',
+    'raise, before it has any effect, OSError(EIO) or (native) the error of '
+    'the real call - ResourceServiceTimeoutError for a resource service '
+    'wait(); a run killed and restarted by the supervisor is not modelled',
     'the firewall plugin is outside the repository and both call sites '
     'swallow its errors on purpose: a fault at plugin.cleanup is modelled as '
     'the plugin failing after it dropped its own rules',
@@ -127,7 +134,23 @@ FINISH_FAULT_LABELS = ['resolve', 'rules.unlink_rule', 'rules.unlink_rule',
 FAULT_LABELS = ['net.put', 'net.wait', 'socket.bind', 'rules.create_rule',
                 'rules.create_rule', 'endpoints.create_spec', 'ipset.add',
                 'ipset.add', 'resolve', 'plugin.apply', 'newnet', 'newnet',
-                'fs.mount', 'image.unpack', 'presence.put', 'exec_pid1']
+                'fs.mount', 'image.unpack', 'presence.put', 'exec_pid1',
+                'cgroup.wait', 'localdisk.wait', 'presence.wait',
+                'presence.wait']
+
+
+def _fault_of(oper):
+    """['x', i, k] | ['x', i, L, n], each optionally followed by 'native'."""
+    rest = list(oper[2:])
+    fault = {}
+    if rest and rest[-1] == 'native':
+        rest.pop()
+        fault['native'] = True
+    if len(rest) == 1:
+        fault['at'] = rest[0]
+    else:
+        fault['label'], fault['nth'] = rest
+    return fault
 
 
 # --------------------------------------------------------------------------
@@ -227,10 +250,16 @@ def history(draw):
             idx = pending.pop(0)
             live.append(idx)
             if draw(st.booleans()):
-                ops.append(['fstart', idx, draw(st.integers(1, 70))])
+                oper = ['fstart', idx, draw(st.integers(1, 70))]
+                native = draw(st.integers(0, 3)) == 0
             else:
-                ops.append(['fstart', idx, draw(st.sampled_from(FAULT_LABELS)),
-                            draw(st.sampled_from([1, 1, 2, 3]))])
+                label = draw(st.sampled_from(FAULT_LABELS))
+                oper = ['fstart', idx, label,
+                        draw(st.sampled_from([1, 1, 2, 3]))]
+                # the way a resource service wait() really fails
+                native = label.endswith('.wait') and \
+                    draw(st.integers(0, 3)) > 0
+            ops.append(oper + (['native'] if native else []))
         elif kind == 'finish':
             idx = draw(st.sampled_from(live))
             live.remove(idx)
@@ -530,8 +559,7 @@ def execute(case, stats):  # pylint: disable=too-many-locals,too-many-branches
                 spec = case['containers'][idx]
                 fault = None
                 if kind == 'fstart':
-                    fault = {'at': oper[2]} if len(oper) == 3 else \
-                        {'label': oper[2], 'nth': oper[3]}
+                    fault = _fault_of(oper)
                 held = {key: world.containers[j].unique_name
                         for j in world.containers
                         for key in [(s.proto, s.addr[1])
@@ -547,6 +575,8 @@ def execute(case, stats):  # pylint: disable=too-many-locals,too-many-branches
                 failed = cont.start_error is not None
                 if cont.fault_label is not None:
                     stats.count('fault-at:' + cont.fault_label)
+                    if cont.fault_native:
+                        stats.count('fault-native-at:' + cont.fault_label)
                     stats.count('fault:start-failed' if failed
                                 else 'fault:handled-by-the-code')
                 elif kind == 'fstart':
@@ -572,6 +602,7 @@ def execute(case, stats):  # pylint: disable=too-many-locals,too-many-branches
                     stats.count('start:failed')
                     stats.count('start:failed-%s-state' % (
                         'with' if cont.state_saved else 'without'))
+                    stats.count('start:aborted-why-%s' % cont.abort_reason)
                 else:
                     _check_ports(cont, world, ranges, busy, held, stats)
                 after = _flatten(world.snapshot())
@@ -587,6 +618,8 @@ def execute(case, stats):  # pylint: disable=too-many-locals,too-many-branches
                 stats.count('entries_registered', len(added))
                 if failed and added:
                     stats.count('start:failed-after-registering')
+                    stats.count('start:failed-after-registering-why-%s'
+                                % cont.abort_reason)
                     failed_with_entries.add(idx)
                 network = world.network_of(cont)
                 if not spec['shared_network'] and network:
@@ -604,8 +637,7 @@ def execute(case, stats):  # pylint: disable=too-many-locals,too-many-branches
             others_private = [j for j in registered if j != idx and owned[j]]
             fault = None
             if kind in ('crash', 'ffinish'):
-                fault = {'at': oper[2]} if len(oper) == 3 else \
-                    {'label': oper[2], 'nth': oper[3]}
+                fault = _fault_of(oper)
             keep_dir = kind == 'crash' or (
                 kind == 'finish' and len(oper) > 2 and oper[2] == 'keep')
             repeated = idx in complete
@@ -690,7 +722,10 @@ def execute(case, stats):  # pylint: disable=too-many-locals,too-many-branches
                 how = '; finish() returned normally although its call %s ' \
                     'failed' % fault_at
             if cont.start_error is not None:
-                how += '; its start had failed at %s' % cont.fault_label
+                how += '; its start had failed at %s with %s, aborted ' \
+                    'with reason %r' % (cont.fault_label,
+                                        type(cont.start_error).__name__,
+                                        cont.abort_reason)
             left = {k: v for k, v in mine.items() if k in after}
             if left:
                 entry = sorted(left)[0]
@@ -826,14 +861,18 @@ def fixed_cases():
     faults = [['newnet', 1], ['rules.create_rule', 3], ['ipset.add', 2],
               ['endpoints.create_spec', 2], ['resolve', 2], ['net.wait', 1],
               ['socket.bind', 2], ['fs.mount', 1], ['presence.put', 1],
-              ['exec_pid1', 1], ['plugin.apply', 1]]
+              ['exec_pid1', 1], ['plugin.apply', 1],
+              # resource services not answering in time, first to last wait
+              ['cgroup.wait', 1, 'native'], ['localdisk.wait', 1, 'native'],
+              ['net.wait', 1, 'native'], ['presence.wait', 1, 'native']]
     failed = []
-    for num, (label, nth) in enumerate(faults):
+    for num, fault in enumerate(faults):
         failed.append((
-            'failed-start-at-%s' % label,
+            'failed-start-at-%s' % '-'.join(str(f) for f in fault
+                                            if not isinstance(f, int)),
             dict(base, containers=[_spec(0), _spec(1, name=num % 2),
                                    _spec(2, env='prod')],
-                 ops=[['start', 0], ['fstart', 1, label, nth],
+                 ops=[['start', 0], ['fstart', 1] + fault,
                       ['finish', 1, 'keep'], ['finish', 1, 'keep'],
                       ['start', 2], ['finish', 1], ['finish', 0],
                       ['finish', 2]])))
